@@ -589,6 +589,48 @@ def sampler_check(ck, plain, quick):
     ck.log("sampler level: %d (space, sampler, call kind) combinations x %d seeds, %d failing" % (len(specs), len(seeds), bad))
     return bad
 
+
+# ---------------------------------------------------------------------------------- GNAT tie order
+def gnat_check(ck, plain, quick):
+    """NearestNeighborsGNAT on an integer lattice (exact distance ties everywhere), same seed, two heap layouts: the
+    ORDER of the answers (and which of several equidistant elements make the cut at k) must not depend on the layout."""
+    r = ck.rng.fork("gnat")
+    jobs = []
+    for i in range(4 if quick else 16):
+        jobs.append((1 + r.below(1 << 30), r.choice([12, 20, 30, 41]), r.choice([1, 4, 5, 9, 13]), i % 2))
+    bad = 0
+    for seed, side, k, nts in jobs:
+        line = "gnat seed=%d side=%d k=%d%s" % (seed, side, k, " nts=1" if nts else "")
+        a = (ck.run_bin(plain, ["gnat", line], env=variant_env(0))[0] or ["<none>"])[-1]
+        b = (ck.run_bin(plain, ["gnat", line], env=variant_env(1))[0] or ["<none>"])[-1]
+        ck.case(("gnat", seed, side, k, nts), True)
+        ck.count("gnat-pairs")
+        if a == b:
+            continue
+
+        def dists(res):
+            out = []
+            for tok in res.split(" | ")[0].split()[2:]:
+                q, ids = tok[1:].split(":")
+                q = int(q)
+                out.append((tok[0], q, sorted(((int(v) % side - q % side) ** 2 + (int(v) // side - q // side) ** 2)
+                                              for v in ids.split(",") if v)))
+            return out
+        try:
+            same = dists(a) == dists(b) and a.split(" | ")[1] == b.split(" | ")[1]
+        except Exception:
+            same = False
+        rec = {"engine": "rng", "kind": "gnat-tie-order", "structure": "GNATNoThreadSafety" if nts else "GNAT",
+               "same_distances": same}
+        if ck.report(rec, script=["gnat", line], expected={"process": "A", "result": a[:600]},
+                     observed={"process": "B (heap pre-fragmented)", "result": b[:600],
+                               "what": "same seed, same insertions, same queries: the order of equidistant answers differs"},
+                     engine="rng"):
+            bad += 1
+            ck.log("GNAT answers depend on the heap layout: %s" % line)
+    ck.log("GNAT tie order: %d lattice cases in two heap layouts, %d new failing" % (len(jobs), bad))
+    return bad
+
 # ---------------------------------------------------------------------------------- the check
 def corpus():
     d = os.path.join(core.VERIF, "corpus", "C20")
@@ -879,6 +921,9 @@ def run(ck):
         # only restate that failure in misleading words
         ck.notes.append("sampler level skipped: the rng protocol already failed in this run")
 
+    # ---- nearest-neighbour structure: order of exact ties must not depend on addresses --------------
+    gnat_check(ck, plain, quick)
+
     # ---- planner determinism across processes ------------------------------------------------------
     jobs = planner_jobs(ck, ck.tier)
     use_asan_third = not quick
@@ -940,6 +985,18 @@ def replay(ck, data):
             return 1
         print("no divergence on the current tree")
         return 0
+    if script and script[0] == "gnat":
+        plain = ck.build_harness("rng_plain", ["rng.cpp"], link_ompl=True, sanitize="", opt="-O1")
+        a = (ck.run_bin(plain, script, env=variant_env(0))[0] or ["<none>"])[-1]
+        b = (ck.run_bin(plain, script, env=variant_env(1))[0] or ["<none>"])[-1]
+        print(script[1])
+        print("process A:                       %s" % a.split(" | ")[0][:400])
+        print("process B (heap pre-fragmented): %s" % b.split(" | ")[0][:400])
+        if a != b:
+            print("PROPERTY FAILS: same seed, same insertions, same queries — the order of the answers depends on the heap layout")
+            return 1
+        print("no failure on the current tree")
+        return 0
     if script and script[0] == "samp":
         plain = ck.build_harness("rng_plain", ["rng.cpp"], link_ompl=True, sanitize="", opt="-O1")
         alt = [l.replace("fill=3 ", "fill=200 ") for l in script]
@@ -998,7 +1055,7 @@ MANIFEST = {
             "tables, uniform_on_sphere for every dimension, uniformInBall, the ball/sphere point handed to the PHS transform, "
             "copies as coded): setSeed erases the clock, the i-th local seed is a function of (seed, i), seeds lie in [1,1e9], "
             "the error/zero-seed paths as coded, setLocalSeed makes a generator indistinguishable from a fresh one for every "
-            "history of all these routines, a copy's sphere routines ignore the copy's own seed (finding F200), the "
+            "history of all these routines, a copy's sphere routines use the copy's own generator (fixed code; the former sharing, F200, kept as a witness), the "
             "oracle-machine lemma (a planner's transcript and output are a function of the answers to the questions it asks) "
             "and its converse witness (an output component nobody wrote depends on garbage). Tied to the code by bit-for-bit "
             "differential runs of the real RNG against the compiled model (PHS outputs are confirmed to be transform() of the "
@@ -1008,12 +1065,16 @@ MANIFEST = {
             "two separate processes (ASLR, shifted stack, different heap fill and layout, different fresh-state filler) under an "
             "evaluation-counting condition or ompl's IterationTerminationCondition, also over solve/clear/solve and solve/solve "
             "histories, two starts and goals, non-default parameters, and must return identical status, path, planner data and "
-            "query transcript. Every other source of randomness in the library is tabled in notes/C20.md.",
+            "query transcript. NearestNeighborsGNAT is run on an integer lattice (exact distance ties) in two heap layouts: the "
+            "order of its answers must not depend on addresses (finding F202). Every other source of randomness in the library "
+            "is tabled in notes/C20.md.",
     "note": "Trusted: Lean kernel, the three standard axioms, the hand-written model outside the explored scripts, the harness, "
             "ProlateHyperspheroid::transform (C15). Bit patterns are for this toolchain (g++ 12/libstdc++/glibc, boost 1.83; the "
             "ziggurat tables are hashed on both sides). Planners are observed, not proved; solve() of PRM/PRMstar/SPARS/SPARStwo "
             "and pRRT/pSBL/CForest/AnytimePathShortening use threads and are excluded; planners needing special problem "
-            "classes are not constructed (see notes/C20.md). Known findings: F200 (copied RNG), F201 (SPARSdb random_device).",
+            "classes are not constructed (see notes/C20.md). F200 (copied RNG) and F201 (SPARSdb random_device) are fixed in /repo; "
+            "open: F202 (GNAT orders exact distance ties by element address; repair proposed) with its planner-level "
+            "manifestation F203.",
     "technique": "Lean 4 proof (state-machine equalities, bisimulation for the stale saved value, induction over oracle "
                  "computations) + bit-exact differential correspondence + two-process differential runs of planners",
 }
